@@ -51,7 +51,10 @@ LEVEL_TEXT = ("Machine-checked Coq theorems over an executable model of the cast
               "resolutions, column declarations and casts in one process) is the map of its operations (C07_session_pure, "
               "C07_session_cast_independent, C07_session_prefix_irrelevant: a cast depends on its own arguments only), and sessions run in fresh "
               "forked processes are compared with the model and with each operation run alone; an ARRAY cast must equal, exactly, the "
-              "implementation's own element casts of its items.")
+              "implementation's own element casts of its items. Round 5: the caller's decimal context is an explicit environment of a cast "
+              "(C07_env_independent: only the precision of a DECIMAL column declared without one is read from it); casts are re-run under seven non-default contexts and must "
+              "equal the model and the same cast under the default context; BOOLEAN of any text / bytes must be exactly 'upper-cased input is a "
+              "documented word' (padded words are False).")
 LEVEL_NOTE = ("Trusted: Coq kernel + vm_compute; the hand-written models of int()/str() on integers, Decimal syntax / rounding / quantize / "
               "__str__, str.upper/strip, truthiness, float(int) (validated against CPython by the correspondence, not verified); Model/C08.v "
               "(and its proofs) for parse_iso, int(str) and UTF-8. Oracles (Section variables instantiated per case with what the library "
@@ -60,12 +63,15 @@ LEVEL_NOTE = ("Trusted: Coq kernel + vm_compute; the hand-written models of int(
               "evaluated in Coq. Known finding F-C07-5 (JSON integers outside 64 bits) is guarded by input class (see notes/C07.md). "
               "Type names are modelled from their structure (the regular expressions of _parse_type are not; the harness prints the text, upper or "
               "lower case). Statelessness is a property of the model by construction; that the implementation has it is tested (sessions), "
-              "not proved. Judged by the Python oracle only: outcome of an operation alone == outcome after a prefix; array == element-wise casts.")
+              "not proved. Judged by the Python oracle only: outcome of an operation alone == outcome after a prefix; array == element-wise casts; "
+              "result under a non-default caller decimal context == result under the default one (the model reads nothing from the environment by "
+              "construction). F-C07-6 (quantum 10 ** -scale computed in the caller's context) is fixed (056ea2a); its witness is a corpus case. "
+              "A DECIMAL column without precision takes the caller's precision by design: modelled (c07_run_env), exempt from the base comparison.")
 DESIGN_REF = "DESIGN.md section 8, C07"
 COQ_IMPORTS = ("From Coq Require Import ZArith NArith.\nFrom Orso Require Import Gen.C08_Tables Model.C08 Gen.C07_Tables Model.C07.\n"
                "Open Scope Z_scope.")
-COQ_CHECKS = {"cast": "c07_check", "str": "c07_check_str", "session": "c07_check_session"}
-COQ_SHOW = {"cast": "c07_show", "str": "c07_show_str", "session": "c07_show_session"}
+COQ_CHECKS = {"cast": "c07_check", "str": "c07_check_str", "session": "c07_check_session", "envcast": "c07_check_env"}
+COQ_SHOW = {"cast": "c07_show", "str": "c07_show_str", "session": "c07_show_session", "envcast": "c07_show_env"}
 RULE = ("per value type: typed values (booleans; integers small, at 2^63/2^64 and up to the 4300-digit limit; floats incl. NaN, infinities, "
         "-0.0, subnormals, random bit patterns; decimals over the (precision, scale) grid at 0, 1 and p digits, both signs; multi-byte text and "
         "bytes with lengths 1..8; dates and timestamps over years 1..9999; arrays of every element type with nulls) rendered as native value, "
@@ -75,7 +81,10 @@ RULE = ("per value type: typed values (booleans; integers small, at 2^63/2^64 an
         "operations (bare casts of those base types, parameters absent or None, by parse or as a column default; any ordinary case; names; "
         "declarations), plus a fixed corpus (every parameterised name resolved / declared / cast, then 27 bare casts). Arrays whose items all have "
         "the element type already (list, tuple, set; every element type) are in the corpus. "
-        "A case is non-trivial when the input is not None; distinct by canonical JSON of (type, kwargs, input, column?) / of the operations")
+        "Caller contexts: 7 fixed non-default decimal contexts (ExtendedContext, no traps, all traps, Emax 9 / Emin -9, prec 5 ROUND_DOWN, clamp, "
+        "prec 1 ROUND_UP) x ~80 fixed casts through every step of DecimalFactory and one or two of every other type; half of the grid cases a "
+        "second time under a rotating context; 6 % of the random cases. Every documented truthy word x 3 spellings x 10 paddings, text and bytes. "
+        "A case is non-trivial when the input is not None; distinct by canonical JSON of (type, kwargs, input, column?, context) / of the operations")
 TRUSTED = [
     "C07 model (coq/Model/C07.v) of OrsoTypes.parse, the per-type parsers, parse_decimal, DecimalFactory.__call__, FlatColumn default casting; "
     "Model/C08.v for parse_iso / int(str) / UTF-8 / ISO renderers",
@@ -607,10 +616,76 @@ def _elementwise(tname, kw, x):
     return out
 
 
+# ---- the caller's decimal context (the environment of a cast)
+_ROUNDINGS = ["ROUND_HALF_EVEN", "ROUND_DOWN", "ROUND_UP", "ROUND_HALF_UP"]
+_DEFAULT_ENV = {"prec": 28, "Emax": 999999, "Emin": -999999, "rounding": "ROUND_HALF_EVEN", "traps": "default", "clamp": 0}
+
+
+def _env(name, **over):
+    e = dict(_DEFAULT_ENV, name=name)
+    e.update(over)
+    return e
+
+
+_ENVS = [
+    _env("ExtendedContext", prec=9, traps="none"),                 # decimal.setcontext(decimal.ExtendedContext)
+    _env("no-traps", traps="none"),
+    _env("all-traps", traps="all"),
+    _env("Emax9-Emin-9", Emax=9, Emin=-9),
+    _env("prec5-round-down", prec=5, rounding="ROUND_DOWN"),
+    _env("clamp-narrow", clamp=1, Emax=30, Emin=-30),
+    _env("prec1-round-up-no-traps", prec=1, rounding="ROUND_UP", traps="none"),
+]
+# F-C07-6 (fixed 056ea2a): Emin - prec + 1 = -13 > -scale: the quantum 10 ** -scale underflowed in the caller's context
+_ENV_TINY = _env("Emin-5-prec9", prec=9, Emin=-5)
+
+
+class _in_env:
+    """run the body with the calling thread's decimal context set as described (restored afterwards)"""
+
+    def __init__(self, env):
+        self.env = env
+
+    def __enter__(self):
+        if self.env is None:
+            return
+        e = self.env
+        sigs = [decimal.InvalidOperation, decimal.DivisionByZero, decimal.Overflow]
+        if e["traps"] == "none":
+            sigs = []
+        elif e["traps"] == "all":
+            sigs = [decimal.Clamped, decimal.DivisionByZero, decimal.Inexact, decimal.InvalidOperation, decimal.Overflow, decimal.Rounded,
+                    decimal.Subnormal, decimal.Underflow, decimal.FloatOperation]
+        self.saved = decimal.getcontext()
+        decimal.setcontext(decimal.Context(prec=e["prec"], rounding=getattr(decimal, e["rounding"]), Emin=e["Emin"], Emax=e["Emax"], capitals=1,
+                                           clamp=e["clamp"], flags=[], traps=sigs))
+
+    def __exit__(self, *exc):
+        if self.env is not None:
+            decimal.setcontext(self.saved)
+        return False
+
+
+def _env_etiny(env):
+    return env["Emin"] - env["prec"] + 1
+
+
+def _env_column_prec(case):
+    """a DECIMAL column declared without precision takes the caller's precision (by design): the one legitimate use of the environment"""
+    env = case.get("env")
+    return env is not None and case.get("col") and case.get("t") == "DECIMAL" and case.get("kw", {}).get("precision") is None \
+        and env["prec"] != _DEFAULT_ENV["prec"]
+
+
 def _observe_cast(case):
     """one cast (OrsoTypes.<t>.parse / FlatColumn(type=<t> or a type name, default=x).default) in the current process"""
     from orso.types import OrsoTypes
 
+    if case.get("env") is not None:
+        with _in_env(case["env"]):
+            out = _observe_cast({k: v for k, v in case.items() if k != "env"})
+        out["base"] = _outcome(_observe_cast({k: v for k, v in case.items() if k != "env"}))   # the same cast under the default context
+        return out
     x = dec(case["x"])
     kw = case.get("kw", {})
     named = case.get("op") == "decl"
@@ -875,7 +950,7 @@ def _expected(case):
     if case.get("col") and t == "DECIMAL":
         # a DECIMAL column without a declared precision / scale has decimal.getcontext().prec and int(0.75 * precision)
         kw = dict(kw)
-        kw.setdefault("precision", decimal.getcontext().prec)
+        kw.setdefault("precision", case["env"]["prec"] if case.get("env") else decimal.getcontext().prec)
         kw.setdefault("scale", int(0.75 * kw["precision"]))
     if v is None:
         return ("eq", None, False)
@@ -1015,10 +1090,22 @@ def oracle(case, obs):
         return None
     if case.get("kind") == "session":
         return _oracle_session(case, obs)
+    if "base" in obs and not _env_column_prec(case) and _outcome(obs) != obs["base"]:
+        e = case["env"]
+        return ("%s gave %s while the calling thread ran with the decimal context %s, but %s under the default context; a cast depends only on "
+                "its type, its value and its parameters, not on the caller's decimal context"
+                % (_op_text(dict(case, op="cast")), _short(_outcome(obs)), _short({k: e[k] for k in e if e[k] != _DEFAULT_ENV.get(k)}), _short(obs["base"])))
     why = _oracle_elementwise(case, obs)
     if why is not None:
         return why
     t = case["t"]
+    # BOOLEAN of text / bytes: True exactly when the input, upper-cased, IS one of the documented words - a padded word is another string
+    if t == "BOOLEAN" and case["x"] is not None and case["x"][0] in ("s", "y"):
+        xv = dec(case["x"])
+        want = xv.upper() in (TRUTHY_WORDS if type(xv) is str else tuple(w.encode() for w in TRUTHY_WORDS))
+        if obs.get("ok") != ["b", want]:
+            return "BOOLEAN cast of %s returned %s; its upper-casing %s one of the documented truthy words %s, so it must be %s" % (
+                _short(xv), _short(_outcome(obs)), "is" if want else "is not", "/".join(TRUTHY_WORDS), want)
     xenc = case["x"]
     # null
     if xenc is None:
@@ -1288,6 +1375,10 @@ def to_coq(case, obs):
         return None
     term = "(%s, T_%s, %s, %s, %s, %s)" % (c_bool(case.get("col", False)), case["t"], c_kw(kw), c_pyval(obs["x"]),
                                           c_otab(obs["tabs"]), c_res(obs, c_pyval))
+    env = case.get("env")
+    if env is not None:
+        return ("envcast", "(mkenv %s %s %s %d%%N %d%%N %s, %s)" % (c_Z(env["prec"]), c_Z(env["Emax"]), c_Z(env["Emin"]), _ROUNDINGS.index(env["rounding"]),
+                                                                    {"none": 0, "default": 1, "all": 2}[env["traps"]], c_bool(env["clamp"]), term))
     return ("cast", term)
 
 
@@ -1298,7 +1389,7 @@ def nontrivial_key(case, obs):
         return "session:" + json.dumps(case["ops"], sort_keys=True)
     if case["x"] is None:
         return None
-    return json.dumps([case["t"], case.get("kw", {}), case["x"], bool(case.get("col"))], sort_keys=True)
+    return json.dumps([case["t"], case.get("kw", {}), case["x"], bool(case.get("col"))] + ([case["env"]] if case.get("env") else []), sort_keys=True)
 
 
 def classify(case, obs):
@@ -1314,6 +1405,8 @@ def classify(case, obs):
             yield "session-judged-op:" + (o["op"] + ":" + o["tn"][0] if "tn" in o else ("column:" if o.get("col") else "parse:") + o["t"])
         return
     yield "type:" + case["t"]
+    if case.get("env"):
+        yield "caller-decimal-context:" + case["env"].get("name", "other")
     yield "via:" + ("FlatColumn" if case.get("col") else "parse")
     yield "render:" + case.get("r", "other")
     x = case["x"]
@@ -1584,6 +1677,17 @@ def _bool_cases():
     for w in TRUTHY_WORDS + ("true", "True", "tRUE", "on", "yes", "t", "y", "false", "False", "FALSE", "off", "no", "0", "0.0", "f", "n", "2", "01", "1.00", ""):
         yield C("BOOLEAN", enc(w), {}, False, enc(w.upper() in TRUTHY_WORDS), "word", True)
         yield C("BOOLEAN", enc(w.encode()), {}, False, enc(w.upper() in TRUTHY_WORDS), "word", True)
+    # a documented word with padding around it is another string (no stripping): every word x spelling x padding, text and bytes, parse and column
+    tpads = [(" ", ""), ("", " "), (" ", " "), ("\t", ""), ("", "\n"), ("\xa0", ""), ("", "\u2003"), ("\r\n", "\x0b"), ("", "\x00"), ("\ufeff", "")]
+    k = 0
+    for w in TRUTHY_WORDS:
+        for sp in (w, w.lower(), w.capitalize()):
+            for left, right in tpads:
+                k += 1
+                x = left + sp + right
+                yield C("BOOLEAN", enc(x), {}, k % 3 == 0, enc(False), "word", True)
+                if left.isascii() and right.isascii():
+                    yield C("BOOLEAN", enc(x.encode()), {}, k % 3 == 1, enc(False), "word", True)
     for x in [0, 1, 2, -1, 1.0, 0.0, 1.5, float("nan"), decimal.Decimal(1), decimal.Decimal("1.0"), decimal.Decimal("1.00"), [1], (), {1}, datetime.date(1, 1, 1),
               10 ** 4400, b"\xff", "Ý", "TRUEİ"]:
         yield C("BOOLEAN", enc(x))
@@ -1780,8 +1884,56 @@ def _typed_arrays():
             yield {"kind": "session", "ops": [{"op": "decl", "tn": ["ARRAY", et], "kw": {}, "x": c["x"], "v": c["v"], "r": c["r"]}], "n_pre": 0}
 
 
+def _with_env(c, env):
+    """the same cast made while the calling thread runs with another decimal context"""
+    if c.get("kind") or c.get("op"):
+        return None
+    return dict(c, env=env)
+
+
+def _env_corpus():
+    """casts that exercise every step of DecimalFactory (padding, create, quantize, the InvalidOperation fallback, rounding, specials, overflow),
+    and one or two of every other type, under each non-default caller context"""
+    D = decimal.Decimal
+    fits = [(5, 3, "123.45"), (10, 7, "12345.678"), (38, 21, "12345678901234567890.5"), (38, 2, "123456789012345678901234567890123456.78"),
+            (4, 4, "0.5"), (5, 2, "1.25"), (38, 28, "0.0000000000000000000000000001"), (9, 0, "123456789"), (1, 0, "7")]
+    base = []
+    for p, sc, text in fits:
+        kw = {"precision": p, "scale": sc}
+        base += list(rendered("DECIMAL", D(text), ["str", "native", "bytes"], kw))
+        base += list(rendered("DECIMAL", D(text), ["str"], kw, True))
+    for text in ["2.5", "1.005", "99999.995", "1e-7", "1E+3", "12", "-0", "NaN", "sNaN12", "-Infinity", "1e999999", "1e-1000040", "abc", " 12 "]:
+        base.append(C("DECIMAL", enc(text), {"precision": 5, "scale": 2}))
+        base.append(C("DECIMAL", enc(text), {}))
+    base.append(C("DECIMAL", enc(0.1), {}))
+    base.append(C("DECIMAL", enc(10 ** 30), {"precision": 38, "scale": 2}))
+    base += list(rendered("DECIMAL", D("12345.678901234"), ["str", "native"]))
+    base += list(rendered("DECIMAL", D("1.25"), ["str"], {"precision": 10}, True))
+    # a DECIMAL column declared without precision takes the caller's precision (by design; modelled by c07_run_env)
+    base += list(rendered("DECIMAL", D("1.25"), ["str", "native"], {}, True)) + list(rendered("DECIMAL", D("7"), ["str"], {"scale": 0}, True))
+    base += [C("DECIMAL", enc("123456.789"), {}, True), C("DECIMAL", enc("12"), {"scale": 2}, True)]
+    base += list(rendered("ARRAY", [D("1.5"), None, D("-12.25")], ["native", "json"], {"element_type": "DECIMAL"}))
+    base += [C("INTEGER", enc(D("12.9"))), C("DOUBLE", enc(D("0.1"))), C("VARCHAR", enc(D("1.50"))), C("BLOB", enc(D("1E+3"))), C("BOOLEAN", enc(D("1.0"))),
+             C("DOUBLE", enc("0.1")), C("INTEGER", enc(2.5)), C("TIMESTAMP", enc(D(5))), C("DATE", enc("2024-02-29")), C("VARCHAR", enc(0.1), {"length": 2})]
+    for env in _ENVS:
+        for c in base:
+            e = _with_env(c, env)
+            if e is not None:
+                yield e
+    # F-C07-6 (fixed 056ea2a): the witness and its neighbours - the quantum 10 ** -scale was computed in the caller's context and
+    # underflowed when Emin - prec + 1 > -scale (digits lost, or decimal.Underflow when trapped)
+    witness = {"t": "DECIMAL", "kw": {}, "col": False, "x": ["s", "0.123456789012345"], "v": ["D", 0, "123456789012345", -15], "r": "str", "env": _ENV_TINY}
+    trapped = dict(_ENV_TINY, traps="all", name="Emin-5-prec9-all-traps")
+    for c in [witness, dict(witness, env=trapped), dict(witness, col=True, kw={"precision": 38, "scale": 21}), dict(
+        C("DECIMAL", enc("1.5"), {"precision": 20, "scale": 28}), env=_ENV_TINY), dict(C("DECIMAL", enc("1.5"), {"precision": 20, "scale": 15}), env=_ENV_TINY),
+              dict(C("DECIMAL", enc("1.25"), {"precision": 5, "scale": 2}), env=_ENV_TINY), dict(C("INTEGER", enc("12")), env=_ENV_TINY),
+              dict(C("DECIMAL", enc("1.25"), {"precision": 20, "scale": 13}), env=_ENV_TINY), dict(C("DECIMAL", enc("1.25"), {"precision": 20, "scale": 14}), env=_ENV_TINY)]:
+        yield c
+
+
 def corpus():
     D = decimal.Decimal
+    yield from _env_corpus()
     yield from _session_corpus()
     yield from _typed_arrays()
     # F-C07-1 (fixed 1f60a67): DECIMAL.parse(Decimal) raised AttributeError
@@ -1891,10 +2043,16 @@ def exhaustive(tier):
                 k += 1
                 if step > 1 and not (k % step == 0 or p in (0, 1, 28, 29, 38) and s in (0, p, 28)):
                     continue
-                yield from _grid_cases(rng, p, s)
+                cs = list(_grid_cases(rng, p, s))
+                yield from cs
+                # half of them again while the calling thread runs with a non-default decimal context (rotating)
+                for j, c in enumerate(cs):
+                    if j % 2 == 0:
+                        yield dict(c, env=_ENVS[(k + j // 2) % len(_ENVS)])
 
     return it(), ("the (precision, scale) grid 0 <= s <= p <= 38 (every pair in the thorough tier, every 9th pair plus the corners in the quick "
-                  "tier) x decimals with 0, 1 and p digits, both signs, one rendering each (values drawn with a fixed seed)")
+                  "tier) x decimals with 0, 1 and p digits, both signs, one rendering each (values drawn with a fixed seed); half of them a second time "
+                  "under a non-default decimal context of the calling thread (7 contexts, rotating)")
 
 
 def generate(rng, tier):
@@ -1906,6 +2064,11 @@ def generate(rng, tier):
     for i in range(n):
         r = rng.random()
         col = rng.random() < 0.15
+        if rng.random() < 0.06:     # any ordinary case under a non-default caller context
+            o = _any_op(rng)
+            e = _with_env({k: v for k, v in o.items() if k != "op"}, rng.choice(_ENVS)) if o else None
+            if e is not None:
+                yield e
         if r < 0.45:
             yield from _scalar_case(rng, col)
         elif r < 0.6:
@@ -1925,6 +2088,12 @@ def search(rng):
         col = rng.random() < 0.2
         if rng.random() < 0.15:
             yield from _session(rng)
+        elif rng.random() < 0.15:
+            p = rng.randint(1, 38)
+            for c in list(_grid_cases(rng, p, rng.randint(0, p), col))[:3] + list(_scalar_case(rng, col)):
+                e = _with_env(c, rng.choice(_ENVS))
+                if e is not None:
+                    yield e
         elif r < 0.5:
             yield from _scalar_case(rng, col)
         elif r < 0.7:
@@ -1949,13 +2118,20 @@ def shrink(case):
         if k == 0 and len(ops) == 1 and ops[0]["op"] == "cast":
             yield ops[0]            # not a matter of sequence at all: the plain cast case
         return
-    if case.get("kind") == "str" or "v" not in case or case["v"] is None:
+    if case.get("kind") == "str":
+        return
+    if case.get("env"):
+        yield {k: x for k, x in case.items() if k != "env"}     # not a matter of the caller's context at all
+    if "v" not in case or case["v"] is None:
         return
     v = case["v"]
     if v[0] == "l" and len(v[1]) > 1:
         for i in range(len(v[1])):
             w = dec(["l", v[1][:i] + v[1][i + 1:]])
             try:
-                yield from rendered(case["t"], w, [case["r"]], case.get("kw"), case.get("col", False))
+                for c in rendered(case["t"], w, [case["r"]], case.get("kw"), case.get("col", False)):
+                    if case.get("env"):
+                        c["env"] = case["env"]
+                    yield c
             except Exception:
                 return
